@@ -20,7 +20,8 @@ R08.3 no sharing between levels: the pointer arm stores a fresh reflect.New valu
 R08.4 merge direction and order: root -> package before PackageConfig.Initialize, package -> interface before InterfaceConfig.Initialize, interface -> each configs entry, recursive package -> discovered sub-package (source and destination not swapped);
 R08.5 source layering in NewRootConfig: defaults (structs provider) -> MOCKERY_* environment -> config file -> flags, in that order, before decoding; the environment transformer strips the prefix, lower-cases and maps _ to -;
 R08.6 per-output-file parameters (template, template-schema, require-template-schema-exists, formatter, force-file-write) handed to the generator / the overwrite guard in RootApp.Run must come from the configuration of the mocks in that file, not from the package or root level; the sub-package exclusion test is asked of the recursive package's config;
-R08.7 per-mock template-data options are read by the built-in templates from the interface's merged template-data (engine T).`
+R08.7 per-mock template-data options are read by the built-in templates from the interface's merged template-data (engine T);
+R08.8 replace-type is looked up, for parameters and for results, in the config methodData receives for the interface (not in the generator's package-level config).`
 	c.NotDecided = "decoding by koanf/mapstructure, YAML anchors; the level x parameter cross product at run time."
 	c.Assumptions = []string{"reflect semantics (Kind, IsNil, IsZero, CanSet) per static type class", "koanf.Load merges later sources over earlier ones"}
 	c.Rule("R08.1", 20, "")
@@ -30,6 +31,7 @@ R08.7 per-mock template-data options are read by the built-in templates from the
 	c.Rule("R08.5", 4, "")
 	c.Rule("R08.6", 1, "")
 	c.Rule("R08.7", 100, "")
+	c.Rule("R08.8", 3, "")
 	r := loadRepo(c, packages.LoadSyntax, "", "./config", "./internal/cmd")
 	cp := r.Pkg("config")
 	ruleMergeConfigs(c, r, cp)
@@ -39,6 +41,31 @@ R08.7 per-mock template-data options are read by the built-in templates from the
 	ruleLayering(c, r, cp)
 	ruleConsumers(c, r, "R08.6", nil)
 	ruleR075(c, r, "R08.6")
+	ruleGenerateData(c, loadRepo(c, packages.LoadSyntax, "", "./internal"), "R08.6")
+	ruleTwoPasses(c, r, "R08.6")
+	// R08.8: replace-type is consulted at the interface's own (merged) level
+	{
+		ri := loadRepo(c, packages.LoadSyntax, "", "./internal")
+		ip := ri.Pkg("internal")
+		if md := FuncDecl(ip, "TemplateGenerator.methodData"); md == nil {
+			c.Fail("R08.8", "methodData|missing", "internal/template_generator.go", "methodData not found")
+		} else {
+			sub := newCtx("C08", c.Tier)
+			sub.known = nil
+			ruleReplacementKey(sub, ri, ip, md)
+			for _, which := range []string{"params", "results", "addvar"} {
+				key := "methodData|" + which + "|addvar"
+				if which == "addvar" {
+					key = "methodData|addvar|caller-config"
+				}
+				if o, bad := sub.fails["R13.1|"+key]; bad {
+					c.Fail("R08.8", "methodData|"+which+"|replace-type-level", o.Pos, o.Detail)
+				} else {
+					c.OK("R08.8", "methodData|"+which+"|replace-type-level", "internal/template_generator.go", "replacements are looked up in the config methodData was given for the interface")
+				}
+			}
+		}
+	}
 	// R08.7
 	for _, name := range []string{"testify", "matryer"} {
 		tname := name
@@ -64,12 +91,14 @@ R08.7 per-mock template-data options are read by the built-in templates from the
 // inheritance, nearest recursive ancestor first.
 func configResolutionGuard(c *Ctx, rule string) {
 	c.Rule(rule, 8, "effective option values: the configuration hierarchy resolves most-specific-first (C08 rules R08.1/R08.2, recursion order R07.5)")
-	r := loadRepo(c, packages.LoadSyntax, "", "./config")
+	r := loadRepo(c, packages.LoadSyntax, "", "./config", "./internal", "./internal/cmd")
 	cp := r.Pkg("config")
 	sub := newCtx(c.Prop, c.Tier)
 	sub.known = nil
 	ruleMergeConfigs(sub, r, cp)
 	ruleMergeStringMaps(sub, r, cp)
+	ruleGenerateData(sub, r, "R08.6")
+	ruleTwoPasses(sub, r, "R08.6")
 	if fd := FuncDecl(cp, "RootConfig.Initialize"); fd != nil {
 		checkRecursiveOrder(sub, r, cp, fd, "R07.5", "Initialize|recursive-order")
 	}
@@ -130,11 +159,13 @@ func atomForClass(class, atom string, destSet bool) (val bool, ok bool) {
 		return class == "mapAny", true
 	case strings.Contains(atom, ".Kind<(reflect.Value).Kind>() == reflect."):
 		return kind(atom[strings.LastIndex(atom, ".")+1:])
-	case strings.HasPrefix(atom, "DEST.") && strings.Contains(atom, ".IsNil<"):
+	// tests of the destination field itself (not of what it points to: an explicit false/""/0 behind a
+	// non-nil pointer is a value set at the more specific level, so such a test stays free)
+	case atom == "DEST.IsNil<(reflect.Value).IsNil>()":
 		return !destSet, true
-	case strings.HasPrefix(atom, "DEST.") && strings.Contains(atom, ".IsZero<"):
+	case atom == "DEST.IsZero<(reflect.Value).IsZero>()":
 		return !destSet, true
-	case strings.HasPrefix(atom, "DEST.") && strings.Contains(atom, ".CanSet<"):
+	case atom == "DEST.CanSet<(reflect.Value).CanSet>()":
 		return true, true
 	case strings.HasSuffix(atom, "#0 == nil") && strings.HasPrefix(atom, "DEST.Interface<"):
 		return false, false // destMap == nil: either way the key-wise merge must follow
@@ -581,4 +612,147 @@ func ruleConsumers(c *Ctx, r *Repo, rule string, only map[string]bool) {
 	if !found {
 		c.Fail(rule, "Run|overwrite-guard", r.Pos(run.Pos()), "no overwrite guard consulting force-file-write found")
 	}
+}
+
+// ruleGenerateData: what TemplateGenerator.Generate hands to the template for each mock is that
+// interface's own resolved values (name, struct name, template-data read straight from the
+// interface's Config, not a map shared with another level), and the file-level template-data is the
+// package config's; nothing in the generator writes into a template-data map.
+func ruleGenerateData(c *Ctx, r *Repo, rule string) {
+	ip := r.Pkg("internal")
+	info := ip.TypesInfo
+	fd := FuncDecl(ip, "TemplateGenerator.Generate")
+	if fd == nil {
+		c.Fail(rule, "Generate|missing", "internal/template_generator.go", "TemplateGenerator.Generate not found")
+		return
+	}
+	c.Func(funcKey(ip, fd))
+	fc := newFuncCanon(info, fd)
+	nLit := 0
+	ast.Inspect(fd.Body, func(n ast.Node) bool {
+		switch x := n.(type) {
+		case *ast.CompositeLit:
+			if !typeIs(info.TypeOf(x), "template.Interface") {
+				return true
+			}
+			nLit++
+			want := map[string]string{"Name": ".Name", "StructName": ".Config.StructName", "TemplateData": ".Config.TemplateData"}
+			seen := map[string]bool{}
+			for _, el := range x.Elts {
+				kv, ok := el.(*ast.KeyValueExpr)
+				if !ok {
+					c.Fail(rule, "Generate|mock-data|positional", r.Pos(x.Pos()), "template.Interface literal without field names")
+					continue
+				}
+				k := kv.Key.(*ast.Ident).Name
+				w, checked := want[k]
+				if !checked {
+					continue
+				}
+				seen[k] = true
+				cx := strings.TrimPrefix(fc.E(kv.Value), "*")
+				good := strings.HasPrefix(cx, "rangeval(ARG") && strings.HasSuffix(cx, ")"+w)
+				c.Check(good, rule, "Generate|mock-data|"+k, r.Pos(kv.Pos()), k+" <- the interface's own"+w, fmt.Sprintf("the template receives %s = %s for a mock; it must be the rendered interface's own%s (its merged, most specific level): anything else ignores per-interface settings or shares state between the mocks of a file", k, cx, w))
+			}
+			for k := range want {
+				if !seen[k] {
+					c.Fail(rule, "Generate|mock-data|"+k, r.Pos(x.Pos()), "the template.Interface handed to the template has no "+k)
+				}
+			}
+		case *ast.CallExpr:
+			if strings.HasSuffix(calleeName(info, x), "/template.NewData") && len(x.Args) == 6 {
+				cx := fc.E(x.Args[4])
+				c.Check(cx == "RECV.pkgConfig.TemplateData", rule, "Generate|file-data", r.Pos(x.Pos()), "file-level template-data = the package config's", "the file-level template-data handed to the template is "+cx+", not the package config's")
+			}
+		}
+		return true
+	})
+	if nLit == 0 {
+		c.Fail(rule, "Generate|mock-data|missing", r.Pos(fd.Pos()), "Generate builds no template.Interface")
+	}
+	// no writes into template-data maps anywhere in the generator package
+	for _, f := range pkgFuncDecls(ip) {
+		ffc := newFuncCanon(info, f)
+		ast.Inspect(f.Body, func(n ast.Node) bool {
+			isTD := func(e ast.Expr) bool {
+				t := info.TypeOf(e)
+				if t == nil {
+					return false
+				}
+				// a map created in this function is the function's own
+				if cx := ffc.E(e); strings.HasPrefix(cx, "builtin.make(") || strings.HasPrefix(cx, "maps.Clone(") || strings.HasSuffix(cx, "{}") {
+					return false
+				}
+				if typeIs(t, "template.TemplateData") {
+					return true
+				}
+				se, ok := ast.Unparen(e).(*ast.SelectorExpr)
+				return ok && se.Sel.Name == "TemplateData"
+			}
+			switch x := n.(type) {
+			case *ast.AssignStmt:
+				for _, l := range x.Lhs {
+					if ie, ok := ast.Unparen(l).(*ast.IndexExpr); ok && isTD(ie.X) {
+						c.Fail(rule, "Generate|template-data-write|"+funcKey(ip, f), r.Pos(x.Pos()), funcKey(ip, f)+" stores into a template-data map: the maps belong to the configuration levels and are shared between mocks and files")
+					}
+				}
+			case *ast.CallExpr:
+				switch calleeName(info, x) {
+				case "maps.Copy", "maps.Insert", "builtin.delete", "builtin.clear":
+					if len(x.Args) >= 1 && (isTD(x.Args[0]) || typeIs(info.TypeOf(x.Args[0]), "template.TemplateData")) {
+						c.Fail(rule, "Generate|template-data-write|"+funcKey(ip, f), r.Pos(x.Pos()), funcKey(ip, f)+" modifies a template-data map in place: the maps belong to the configuration levels and are shared between mocks and files")
+					}
+				}
+			}
+			return true
+		})
+	}
+	c.OK(rule, "Generate|template-data-read-only", r.Pos(fd.Pos()), "the generator package never writes into a template-data map")
+}
+
+// ruleTwoPasses: one pass of RootConfig.Initialize merges root -> package -> interface -> configs
+// entry first and only then lets recursive packages push their config into (possibly listed)
+// sub-packages; the values pushed reach the listed interfaces of those sub-packages in the next pass.
+// So the configuration is initialised twice before anything is read from it: once at the end of
+// NewRootConfig and once more in RootApp.Run before the packages are listed.
+func ruleTwoPasses(c *Ctx, r *Repo, rule string) {
+	cp, cmdp := r.Pkg("config"), r.Pkg("internal/cmd")
+	isInit := func(p *packages.Package, call *ast.CallExpr) bool {
+		return strings.HasSuffix(calleeName(p.TypesInfo, call), "/config.RootConfig).Initialize")
+	}
+	first := false
+	if nr := FuncDecl(cp, "NewRootConfig"); nr != nil {
+		for _, p := range func() []*dtPath { ps, _ := enumerateFunc(cp.TypesInfo, nr); return ps }() {
+			if p.Exit == "return" && len(p.Ret) == 3 && p.Ret[2] == "nil" {
+				first = len(p.CallsTo("config.RootConfig).Initialize")) >= 1
+				if !first {
+					break
+				}
+			}
+		}
+		_ = isInit
+	}
+	c.Check(first, rule, "NewRootConfig|initialize", "config/config.go", "every successful NewRootConfig has run Initialize", "NewRootConfig can return a configuration that was never initialised (levels not merged)")
+	run := FuncDecl(cmdp, "RootApp.Run")
+	if run == nil {
+		c.Fail(rule, "Run|second-pass", "internal/cmd/mockery.go", "RootApp.Run not found")
+		return
+	}
+	info := cmdp.TypesInfo
+	var initPos, readPos token.Pos
+	ast.Inspect(run.Body, func(n ast.Node) bool {
+		switch x := n.(type) {
+		case *ast.CallExpr:
+			name := calleeName(info, x)
+			switch {
+			case isInit(cmdp, x) && !initPos.IsValid():
+				initPos = x.Pos()
+			case (strings.HasSuffix(name, "/config.RootConfig).GetPackages") || strings.HasSuffix(name, "/config.RootConfig).GetPackageConfig")) && !readPos.IsValid():
+				readPos = x.Pos()
+			}
+		}
+		return true
+	})
+	ok := initPos.IsValid() && readPos.IsValid() && initPos < readPos
+	c.Check(ok, rule, "Run|second-pass", r.Pos(run.Pos()), "Run re-initialises the configuration before listing the packages (its error is covered by R09.1)", "RootApp.Run does not run RootConfig.Initialize before it reads the packages: what a recursive package pushed into a listed sub-package during the first pass never reaches that sub-package's listed interfaces, whose mocks are then rendered with the template-data of a less specific level")
 }
